@@ -8,6 +8,10 @@ Decided on the polymorphic MIR (holds for every SIZE, Hal, Transport, history):
     wrapping_add(previous trusted value, 1).
  O4 indirect tables are finished before they are handed to the device (no store after Leak).
  O5 consumer side: used.ring loads are dominated by an Acquire/SeqCst load of used.idx.
+ O7 descriptor fields are overwritten, not merged, with this submission's values (C01.F1 fold over old contents).
+ O8 a submission is admitted only when its descriptors / ring slot are free (capacity table, C03.E3).
+ O9 descriptors of unconsumed entries are not reissued (free-list relink rules, C03.E6).  O3 also: avail.idx is fed
+    by the single private submission counter.
  O6 completeness: on the submission path every descriptor field (addr,len,flags,next) is copied shadow->device
     table before the index store, so no published chain contains a stale field.
 """
